@@ -218,7 +218,7 @@ CHECKS = {
                 "proved over R), so fitted static values at corresponding points are unchanged; static column prefix/case/transposed digits give the "
                 "same canonical key and a column permutation gives the same parsed map (or both reads fail). The fit_modulus corollaries of the affine/row-order clause are unconditional (fit_modulus_answers, "
                 "fit_modulus_affine, static_row_perm: the unpivoted Gauss-Jordan solver is proved total on >= order+2 distinct strains). The equivariance theorem is total for bijective re-indexings (interp_perm_equivariant_total: one presentation returns iff the other does; which exception is raised is not presentation-independent, interp_perm_error_may_differ). PARTIAL: "
-                " volume-block order goes through qha/scipy and is metamorphic-only. Metamorphic end-to-end runs of the real Calculator on 12 "
+                " volume-block order: proved on the translated read_input since round 4 (see the source ties below); what qha/scipy compute AFTER read_input stays outside. Metamorphic end-to-end runs of the real Calculator on 12 "
                 "re-presentations per data set (incl. combined column shuffle+respelling, normalised weights, extreme weight factors, composed phonon "
                 "re-presentation) with 'identical to 1e-8 of scale' (volume order: identical or rejected) as oracle.",
         "note": COMMON_NOTE + "Theorems are over R / ordered fields; 'unchanged to rounding' is measured, not proved. qha and scipy are external.",
@@ -286,21 +286,23 @@ ADDENDA = {
             "technique": "translator tie for the whole of shear.py (evaluators of the translated statements = model)"},
     "C09": {"text": "fill.py and cli/fill.py translated (tools/gens/fill_src.py): keyword defaults, symbol order (comprehension evaluated), regexes, refusal tests and residual definition as trees, lookup precedence, equation rule applied to every packaged relations file part by part, stacking order, lstsq rcond, write-back key rule, drop rule, click option -> kwarg -> default, call sites; fill_model_is_source_* prove the model's symbols, refusals (for all parameters, residuals, ranks), residuals, lookup, equations, columns, defaults and CLI wiring are the meaning of that data.",
             "technique": "translator tie for fill_cij and cij fill (expression-tree evaluators = model)"},
-    "C10": {"text": "cij/util/voigt.py is re-translated AS A WHOLE on every run into a PyLite module (deep embedding of the pure-Python subset, fuelled evaluator, CijModel/PyLite.lean); kernel evaluation proves translated source = hand model on the complete finite domain (2095 spellings) and on all views of the 21 keys (voigt_model_is_source*); every clause is restated about the translated source (voigt_source_*); rejection for all integers by symbolic kernel evaluation (partial for standard pairs with both indices < 0 or both >= 4); the PyLite evaluator is tested against CPython on the domain + a malformed stream every run (tested, not proved).",
+    "C10": {"text": "cij/util/voigt.py is re-translated AS A WHOLE on every run into a PyLite module (deep embedding of the pure-Python subset, fuelled evaluator, CijModel/PyLite.lean); kernel evaluation proves translated source = hand model on the complete finite domain (2095 spellings) and on all views of the 21 keys (voigt_model_is_source*); every clause is restated about the translated source (voigt_source_*); rejection and canonical value for ALL integers (continuation extraction around `sorted`, split on i <= j); one-argument integers for all n < 10^1900 via str(int) = digits and induction over the generator expression; model = source for every one/two/four-integer spelling (voigt_model_is_source_ints); the PyLite evaluator is tested against CPython on the domain + a malformed stream every run (tested, not proved).",
             "technique": "ast -> PyLite translator, decide +kernel / kernel_rfl on the translated AST, differential test PyLite vs CPython"},
     "C18": {"text": "cli/static.py::main is translated into 17 guarded blocks of statements (tools/gens/static_src.py) with helpers fit_modulus / v2p1d, the six VRH formulas as expression trees, click names/types/choices/defaults and units.py helpers as pint expressions; static_model_is_source*: runWith = the interpretation of the translated blocks, block by block and as a whole, for every scalar type (hypothesis FillFrame on the filled frame); block order facts (table density -> fill -> --cellmass -> VRH -> units -> velocities -> sampling) read off the translated order; defaults and unit helpers as translated.",
             "technique": "translator tie for run-static (interpreter of the translated blocks = model)"},
-    "C02": {"text": "shear target formula and task identity/equality/store wiring restated from the translated shear.py / tasks.py (c02_shear_target_is_source, c02_tasks_are_source)."},
+    "C02": {"text": "qha_adapter.py and units.py translated completely (tools/gens/qha_src.py: 38 + 10 defs as data): object-graph proof that v_array / t_array / heat_capacity / pressures are finer_volumes_bohr3 / temperature_array / cv_tv_au / p_tv_au of ONE qha calculator; read_input rejects non-decreasing volumes for every ordered scalar; convert_unit value and curried forms; the nine unit helpers preserve dimension and the to/from pairs are inverse; dimensional analysis over exponent vectors: the translated gap tree and T V (dP/dT)^2 / C_V carry exactly Ry/bohr^3, Q = hbar omega / k_B T is dimensionless with omega in cm^-1, unit-covariance of the gap (c02_glue_is_source_*); shear target formula and task identity/equality/store wiring restated from the translated shear.py / tasks.py (c02_shear_target_is_source, c02_tasks_are_source).",
+            "technique": "translator tie for qha_adapter.py/units.py with dimensional analysis of the translated expression trees"},
     "C04": {"text": "shear target, non-shear value bodies and full_modulus defaults restated from the translations of shear.py / nonshear.py / full_modulus.py (c04_*_is_source)."},
-    "C05": {"text": "task identity, mode-gamma glue and the qha adapter (field tables, read_input, pressure guard) restated from the translations of tasks.py / mode_gamma.py / qha_adapter.py (c05_*_is_source)."},
+    "C05": {"text": "full_modulus.py and _calculate_pressure_static translated at data level (tools/gens/fullmodulus_src.py: 11 defs as statement lists over expression trees, nothing compared as text): interpreter = model for fit_modulus (every order), get_static_modulus, get_axial_strains (edge replication, centred / one-sided ratios, row normalisation), modulus_adiabatic / modulus_isothermal, calculate_phonon_contribution wiring; the static fit reads only the table's own volume column and the grid (syntactic and semantic theorem); full_modulus's fit = run-static's translated fit applied to V c with order + 1, divided by V (c05_glue_*); task identity, mode-gamma glue and the qha adapter (field tables, read_input, pressure guard) restated from the translations of tasks.py / mode_gamma.py / qha_adapter.py (c05_*_is_source).",
+            "technique": "translator tie for full_modulus.py (interpreter of translated statements = model)"},
     "C06": {"text": "the pressure-range guard is translated from QHACalculator.desired_pressure_status into an expression value (field, column, reduction, comparison, exception) and the model's range check is proved equal to its meaning for every table and grid (pressure_guard_is_source; accept <=> in range restated for the translated guard); loading sequence read_input -> refine_grid -> guard translated (adapter_load_order_is_source).",
             "technique": "translator tie for the range guard (GuardExpr evaluator = model)"},
     "C07": {"text": "the glue of Calculator / CijVolumeBaseInterface is translated as data (tools/gens/calc_src.py): assembly indices, compliance labelling, REGEX_CIJ and the __getattr__ dispatch, __init__ order, class-level state, in-place operations; assembly / labelling / name lookup models are proved to be the evaluation of that data for all key lists and names (calc_glue_is_source_*), label (i,j) is the (i,j) entry of the inverse whatever the key order, no shared state and no in-place writes hence read-order freedom on the generated read graph.",
             "technique": "translator tie for the calculator glue + order-freedom via the memo-history theorems"},
-    "C11": {"text": "pchip and akima are no longer a contract parameter: scipy's PchipInterpolator/Akima1DInterpolator slope rules and PPoly evaluation are modelled (CijModel/PPoly.lean, constants read from the installed scipy source); proved: node values, nu=1 is the derivative of nu=0 everywhere and nu=2 of nu=1 off interior nodes, C1 at nodes, PCHIP slope box and Fritsch-Carlson monotonicity, power-law exactness, (exp s, -s', -s'') consistency without contract; bit-for-bit correspondence with scipy; dispatch/constructor/extrapolate wiring of interpolate_mode_ppoly translated (ppoly_glue_is_source). PARTIAL now only: FITPACK spline.",
+    "C11": {"text": "pchip and akima are no longer a contract parameter: scipy's PchipInterpolator/Akima1DInterpolator slope rules and PPoly evaluation are modelled (CijModel/PPoly.lean, constants read from the installed scipy source); proved: node values, nu=1 is the derivative of nu=0 everywhere and nu=2 of nu=1 off interior nodes, C1 at nodes, PCHIP slope box and Fritsch-Carlson monotonicity, power-law exactness, (exp s, -s', -s'') consistency without contract; bit-for-bit correspondence with scipy; dispatch/constructor/extrapolate wiring of interpolate_mode_ppoly translated (ppoly_glue_is_source). every function of mode_gamma.py re-translated as statements/expression trees (tools/gens/modegamma_src.py): interpolateMode for every method and interpolateModes = interpretation of the translated code for all inputs, any exp/log pair, any kernels (mode_glue_src_*: one independent fit per mode from that mode's series only; vander in decreasing powers with order+1 columns; spline on the grid in the order given with k=order and no s/w); inventory complete; the diagnostic plot and the `cij modes` command translated (plot_select_is_source, plot_command_wiring_is_source). PARTIAL now only: FITPACK spline.",
             "technique": "piecewise-cubic Hermite model of scipy's pchip/akima with HasDerivAt proofs; bit-for-bit scipy correspondence"},
     "C12": {"text": "'inside the computed range' is the translated guard of qha_adapter.py: an in-range non-empty grid is never refused, an overshooting one always (c12_in_range_grid_not_refused, c12_out_of_range_grid_refused); non-shear value bodies, shear target and mode glue restated from their translations."},
-    "C13": {"text": "full_modulus defaults/bodies, qha adapter tables and guard, non-shear bodies restated from their translations (c13_*_is_source)."},
+    "C13": {"text": "volume-block clause PROVED on QHACalculator.read_input as re-translated every run (tools/gens/volorder_src.py: statement list, guard, exception, position; comparison operator read from the installed qha): for a file listed by strictly decreasing volume EVERY permutation of the blocks is the identity or is rejected with RuntimeError (vol_relisting_rejected_or_identical); accepted re-listings share the volume list; witness that equal-volume blocks may be exchanged (outside the quantifier, recorded); presentation clauses restated on Generated.NonShearGlue / ModeGammaSpec / Readers; full_modulus defaults/bodies, qha adapter tables and guard, non-shear bodies restated from their translations (c13_*_is_source)."},
     "C14": {"text": "inventory of process-wide state translated from EVERY module under cij/ (tools/gens/state_src.py): module/class-level mutable bindings are exactly four constant tables, no function writes to anything outliving the call, no mutable default, no caching decorator, no id()-keyed table, import-time statements only in the three entry modules (c14_shared_objects_known, c14_no_shared_writes, c14_import_time_statements_known, c14_no_hidden_state); task and full_modulus ties restated. Harness: a same-named twin data set (same file names/settings, other frequencies) computed after A in one process.",
             "technique": "package-wide state inventory translated from the source and pinned by kernel-checked theorems"},
     "C15": {"text": "the code of results_writer.py / qha_output.py / write_table / write_variables / write_output is translated (tools/gens/writer_src.py) and each model function is proved equal to the interpreter of the translated statements (writer_model_is_source_*: create, format_ij, write_variable, write_ij_variable, convert order, dispatch, registry, write, write_table wiring, write_variables, write_output). Harness: two bases / Calculators writing alternately, 3-decimal pressure grids with independently parsed headers, arrays bit-identical before/after writing.",
